@@ -44,7 +44,7 @@ def run(ctx):
     allz = sorted(eb)
     nb = 16
     batches = [sorted(set(allz[i::nb]) | {1}) for i in range(nb)]     # hydrogen (with D and T) is served under every variant
-    outs = forkrun.map_fresh("ptv.massexec", "serve", [{"zs": b, "private": True, "variant": i % 16} for i, b in enumerate(batches)])
+    outs = forkrun.map_fresh("ptv.massexec", "serve", [{"zs": b, "private": True, "variant": [0, 1, 2, 3, 4, 5, 6, 7, 8, 9, 10, 11, 16, 17, 18, 20][i % 16]} for i, b in enumerate(batches)])
     c = rawtables.module_constants("constants")
     header = {"avogadro": dec.to_dec(c["avogadro_number"]), "symof": dict((str(z), v[1]) for z, v in eb.items())}
     total = 0
